@@ -28,7 +28,7 @@ ASSUMPTIONS = [
 BUDGET = {"quick": {"examples": 8000, "shrink": 300}, "thorough": {"examples": 480000, "shrink": 2000}}
 INF = 0xFFFFFF
 WI, WM, WN = 0xFFFF, 0xFF, 0xFFFFFFFF
-SERVICES = [(0x1000, 1, 1, 0), (0x1000, 2, 1, 0), (0x1000, 1, 2, 5), (0x2000, 1, 1, 0), (0x3000, 7, 7, 7)]
+SERVICES = [(0x1000, 0x0101, 1, 0x10000), (0x1000, 0x0102, 1, 0x10000), (0x1000, 0x0101, 2, 0x10005), (0x2000, 0x0101, 1, 0x10000), (0x3000, 0x0707, 7, 0x70007)]
 
 when_st = st.one_of(
     st.tuples(st.just("d"), st.sampled_from([0.0, 0.001, 0.004, 0.02, 0.1, 0.3, 1.0])).map(list),
@@ -71,7 +71,7 @@ def strategy(tier):
 
 def fixed_cases(tier):
     out = []
-    f2 = [[0x1000, WI, WM, WN], [0x2000, 1, 1, 0]]
+    f2 = [[0x1000, WI, WM, WN], [0x2000, 0x0101, 1, 0x10000]]
     base = {"filters": f2, "imin": 0.1, "imax": 0.1, "reps": 3, "base": 0.2, "fttl": 3, "fr": 0.5, "pre": []}
     o = lambda s, ttl, when: {"op": "offer", "src": 0, "s": s, "ttl": ttl, "when": when}  # noqa: E731
     for k in range(4):
